@@ -128,6 +128,8 @@ def run(ck, fx, cg, tier):
         bad = {t: vs for t, vs in back.items() if len(vs) != 1 or wtags.get(t) != vs}
         ck.ob("R3.tags", "%s reader inverts the tag table" % what, not bad, "", "mismatching tags: %s" % (bad or "none"))
     ck.floor("R3.agree", "variants compared", n, 24)
+    from .. import canary
+    canary.require(ck, {"R3.narrow"})
     _prims(ck, fx)
     _narrow(ck, fx, cg)
     _reload(ck, fx, cg)
